@@ -70,9 +70,29 @@ def strip_lean_comments(src):
     return "\n".join(l.split("--")[0] for l in src.split("\n"))
 
 
-def forbidden_scan():
+def import_closure(mod):
+    """files of this project that `mod` transitively imports (incl. itself)"""
+    seen, todo = [], [mod]
+    while todo:
+        m = todo.pop()
+        path = os.path.join(LEAN, m.replace(".", "/") + ".lean")
+        if path in seen or not os.path.exists(path):
+            continue
+        seen.append(path)
+        for imp in re.findall(r"^import\s+(\S+)", open(path).read(), flags=re.M):
+            if imp.startswith("BumpVerif") or imp.startswith("Driver"):
+                todo.append(imp)
+    return seen
+
+
+def forbidden_scan(mod=None, extra=()):
+    """scan the import closure of the property's theorem module (and the drivers it uses)"""
     hits = []
-    for path in glob.glob(os.path.join(LEAN, "BumpVerif", "**", "*.lean"), recursive=True) + glob.glob(os.path.join(LEAN, "Driver", "*.lean")):
+    files = []
+    for m in [mod] + list(extra):
+        if m:
+            files += import_closure(m)
+    for path in sorted(set(files)):
         src = strip_lean_comments(open(path).read())
         for i, line in enumerate(src.split("\n"), 1):
             if FORBIDDEN.search(line):
@@ -134,7 +154,7 @@ def lean_obligations(ctx):
                     out["broken"].append({"name": name, "why": f"depends on disallowed axioms {bad}"})
                 else:
                     out["discharged"].append(name)
-        hits = forbidden_scan()
+        hits = forbidden_scan(mod, ctx.spec.get("drivers", ["Driver.Main"]))
         if hits:
             out["broken"].append({"name": "forbidden-token-scan", "why": "; ".join(hits[:5])})
         if ctx.tier == "thorough" and build_ok:
